@@ -258,13 +258,13 @@ func drawSeq(rt *rapid.T, h int) []op {
 
 func TestCounterAutomaton(t *testing.T) {
 	r := ev.New(t, prop, "TestCounterAutomaton")
-	r.Rule("rapid op sequences (1..40 ops) over {Sign(m), SetIndex(j)} on one key; j drawn from classes {same, +1..3, last, near-last, random forward, back one, random back, 2^h, 2^h+1, 2^31, 2^32-1, random >= 2^h}; heights 4 (mostly), 6, and 10 in cheap-leaf mode; about 1/4 of cases use real hashing (signatures are then also verified); oracle = counter automaton + refusal leaves GetSK/GetIndex/full snapshot unchanged + identity getters constant + (seam) the authentication path stays the reference one; non-trivial = a sequence with a refused operation followed later by a successful signature, or one that exhausts the key and then tries again; distinct by op-sequence")
+	r.Rule("rapid op sequences (1..40 ops) over {Sign(m), SetIndex(j)} on one key; j drawn from classes {same, +1..3, last, near-last, random forward, back one, random back, 2^h, 2^h+1, 2^31, 2^32-1, random >= 2^h}; heights 4 (mostly), 6, and 8 / 10 in cheap-leaf mode (8: the exhausted index 256 no longer fits one byte); about 1/4 of cases use real hashing (signatures are then also verified); oracle = counter automaton + refusal leaves GetSK/GetIndex/full snapshot unchanged + identity getters constant + (seam) the authentication path stays the reference one; non-trivial = a sequence with a refused operation followed later by a successful signature, or one that exhausts the key and then tries again; distinct by op-sequence")
 	checks := r.PerShard(r.Pick(6400, 96000))
 	r.Rapid(t, "seq", checks, func(rt *rapid.T) {
-		c := &seqCase{Mode: "seam", Hash: uint(rapid.SampledFrom(pu.Hashes).Draw(rt, "hash")), H: rapid.SampledFrom([]int{4, 4, 4, 6, 10}).Draw(rt, "h")}
+		c := &seqCase{Mode: "seam", Hash: uint(rapid.SampledFrom(pu.Hashes).Draw(rt, "hash")), H: rapid.SampledFrom([]int{4, 4, 4, 6, 10, 8, 8}).Draw(rt, "h")}
 		if seamOn == nil || rapid.IntRange(0, 15).Draw(rt, "real") == 0 {
 			c.Mode = "real"
-			if c.H == 10 {
+			if c.H >= 8 {
 				c.H = 4
 			}
 		}
